@@ -664,6 +664,15 @@ fn dlf_attrs(f: &Flt) -> Vec<(&'static str, String)> {
     }
     kv
 }
+/// number of a DLF element in the Coq model (Filter/Frontends.v dkey_idx)
+fn dlf_key_idx(k: &str) -> u32 {
+    const NAMES: [&str; 19] = [
+        "type", "enablefilter", "enableecuid", "ecuid", "enableapplicationid", "applicationid", "enableregexp_Appid", "enablecontextid", "contextid",
+        "enableregexp_Context", "enablecontrolmsgs", "enablepayloadtext", "ignoreCase_Payload", "payloadtext", "enableregexp_Payload", "enableLogLevelMax",
+        "logLevelMax", "enableLogLevelMin", "logLevelMin",
+    ];
+    NAMES.iter().position(|n| *n == k).map_or(19, |i| i as u32)
+}
 fn dlf_text(fs: &[Flt], pretty: bool) -> String {
     let nl = if pretty { "\n  " } else { "" };
     let mut s = String::from("<?xml version=\"1.0\" encoding=\"UTF-8\"?>\n<dltfilter>");
@@ -1274,7 +1283,10 @@ fn record(sink: &mut Sink, w: &World, scn_no: usize, args: &[ArgSpec], o: &Opts,
         },
     ]);
 
-    // ---------------- Coq input
+    // ---------------- Coq input: the filter sources as written, the header parts Filter::matches reads, and the real
+    // regex engine's answers (the model loads the filters with the C11 front-end models and evaluates the model of
+    // Filter::matches itself; the oracle above used the harness's own matcher)
+    let cbytes = |b: &[u8]| cnums(b);
     let coq_files: Vec<String> = (0..scn.files.len())
         .map(|k| {
             let f = &scn.files[k];
@@ -1283,27 +1295,76 @@ fn record(sink: &mut Sink, w: &World, scn_no: usize, args: &[ArgSpec], o: &Opts,
                 .iter()
                 .map(|uid| {
                     let m = &scn.msgs[*uid as usize];
-                    let fv: Vec<&str> = filters.iter().map(|f| cbool(f.verdict(m))).collect();
-                    format!("({}, {}, {}, {}, {}, {}, {})", uid, m.ecu, m.rt, if m.has_ts { m.ts as u64 * 100 } else { 0 }, cbool(m.has_ts), cbool(m.creq), clist(&fv))
+                    let ext = if m.ext { format!("(Some ({}, {}, {}))", m.vmm(), cbytes(&apid_id(m.apid)), cbytes(&ctid_id(m.ctid))) } else { "None".to_string() };
+                    format!("({}, {}, {}, {}, {}, {}, ({}, {}))", uid, m.ecu, m.rt, if m.has_ts { m.ts as u64 * 100 } else { 0 }, cbool(m.has_ts), cbool(m.creq), cbytes(&ecu_id(m.ecu)), ext)
                 })
                 .collect();
             format!("({}, {}, {})", k, if f.missing { 0 } else { scn.file_bytes(k).1 }, clist(&msgs))
         })
         .collect();
     let coq_args: Vec<String> = args.iter().map(|a| if scn.files[a.0].missing { "None".to_string() } else { format!("(Some {})", a.0) }).collect();
-    let coq_filters: Vec<String> = filters.iter().map(|f| format!("({}, {})", f.kind, cbool(f.enabled))).collect();
+    let mut coq_srcs: Vec<String> = vec![];
+    if o.ffmt == 1 {
+        for f in &o.ffilters {
+            let kv: Vec<String> = dlf_attrs(f).iter().map(|(k, v)| format!("({}, {})", dlf_key_idx(k), cbytes(v.as_bytes()))).collect();
+            coq_srcs.push(format!("FsDlf {}", clist(&kv)));
+        }
+    } else if o.ffmt == 2 {
+        coq_srcs.push(format!("FsConv {}", cbytes(&conv_text(&o.ffilters))));
+    }
+    for f in &o.eac {
+        coq_srcs.push(format!("FsEac {}", cbytes(eac_one(f, o.eac_style).as_bytes())));
+    }
+    // the engine's answers: every criterion text that could be read as an expression x every id of its kind in the scenario
+    let (mut vt, mut rt): (Vec<String>, Vec<String>) = (vec![], vec![]);
+    {
+        let mut seen: BTreeSet<(String, u8)> = BTreeSet::new();
+        for (_, f) in &filters {
+            for (kind, c) in [(0u8, &f.ecu), (1, &f.apid), (2, &f.ctid)] {
+                let c = match c {
+                    Some(c) => c,
+                    None => continue,
+                };
+                if !(has_regex_chars(&c.text) || c.flag == Some(true)) || !seen.insert((c.text.clone(), kind)) {
+                    continue;
+                }
+                let compiled = regex::bytes::Regex::new(&c.text);
+                if !vt.iter().any(|x: &String| x.starts_with(&format!("({}, ", cbytes(c.text.as_bytes())))) {
+                    vt.push(format!("({}, {})", cbytes(c.text.as_bytes()), cbool(compiled.is_ok())));
+                }
+                if let Ok(re) = compiled {
+                    let ids: BTreeSet<[u8; 4]> = scn
+                        .msgs
+                        .iter()
+                        .filter(|m| kind == 0 || m.ext)
+                        .map(|m| match kind {
+                            0 => ecu_id(m.ecu),
+                            1 => apid_id(m.apid),
+                            _ => ctid_id(m.ctid),
+                        })
+                        .collect();
+                    for id in ids {
+                        let e = format!("({}, {}, {})", cbytes(c.text.as_bytes()), cbytes(&id), cbool(re.is_match(&id)));
+                        if !rt.contains(&e) {
+                            rt.push(e);
+                        }
+                    }
+                }
+            }
+        }
+    }
     let coq_opts = format!(
         "({}, {}, {}, {}, {}, {}, {}, {})",
         o.b.unwrap_or(0),
         o.e.unwrap_or(u32::MAX),
         cnums(&o.lcs),
-        clist(&coq_filters),
+        clist(&coq_srcs),
         cbool(o.sort),
         o.style,
         cbool(o.ofile),
         copt(p.prior.as_ref().map(|v| cnums(v)))
     );
-    let input_coq = format!("({}, {}, {})", clist(&coq_files), clist(&coq_args), coq_opts);
+    let input_coq = format!("({}, {}, {}, ({}, {}))", clist(&coq_files), clist(&coq_args), coq_opts, clist(&vt), clist(&rt));
 
     // ---------------- tags
     let mut tags: Vec<String> = extra_tags.iter().map(|s| s.to_string()).collect();
@@ -1325,13 +1386,13 @@ fn record(sink: &mut Sink, w: &World, scn_no: usize, args: &[ArgSpec], o: &Opts,
         tags.push("opt_f_conv".into());
     }
     {
-        let nneg = filters.iter().filter(|f| f.enabled && f.kind == 1).count();
-        let npos = filters.iter().filter(|f| f.enabled && f.kind == 0).count();
+        let nneg = filters.iter().filter(|f| f.1.enabled && f.1.kind == 1).count();
+        let npos = filters.iter().filter(|f| f.1.enabled && f.1.kind == 0).count();
         if nneg >= 2 {
             tags.push("filters_2plus_negative".into());
             // some message matches one but not all of the negative filters
-            let negs: Vec<&Flt> = filters.iter().filter(|f| f.enabled && f.kind == 1).collect();
-            if pb.screen.iter().any(|x| { let m = &scn.msgs[x.1 as usize]; let c = negs.iter().filter(|f| f.verdict(m)).count(); c >= 1 && c < negs.len() }) {
+            let negs: Vec<&(Front, Flt)> = filters.iter().filter(|f| f.1.enabled && f.1.kind == 1).collect();
+            if pb.screen.iter().any(|x| { let m = &scn.msgs[x.1 as usize]; let c = negs.iter().filter(|f| f.1.verdict(f.0, m)).count(); c >= 1 && c < negs.len() }) {
                 tags.push("negatives_partly_matching".into());
             }
         }
@@ -1340,6 +1401,56 @@ fn record(sink: &mut Sink, w: &World, scn_no: usize, args: &[ArgSpec], o: &Opts,
         }
         if nneg >= 1 && npos >= 1 {
             tags.push("filters_pos_and_neg".into());
+        }
+        // id criteria that are expressions, and messages for which the missing extended header decides
+        let mut t: BTreeSet<String> = BTreeSet::new();
+        for (front, f) in filters.iter().filter(|f| f.1.enabled && f.1.kind <= 1) {
+            let re: Vec<bool> = [(IdKind::Ecu, &f.ecu), (IdKind::Apid, &f.apid), (IdKind::Ctid, &f.ctid)].iter().map(|(k, c)| c.as_ref().map_or(false, |c| c.is_regex(*front, *k))).collect();
+            let nm = ["ecu", "apid", "ctid"];
+            let fr = match front { Front::Dlf => "dlf", Front::Conv => "conv", Front::Eac => "eac" };
+            let pol = if f.kind == 0 { "pos" } else { "neg" };
+            for k in 0..3 {
+                if re[k] {
+                    t.insert(format!("crit_regex_{}_{}", nm[k], fr));
+                    t.insert(format!("crit_regex_{}", pol));
+                }
+            }
+            if re.iter().filter(|x| **x).count() >= 2 {
+                t.insert("crit_regex_pair".into());
+            }
+            if [&f.ecu, &f.apid, &f.ctid].iter().any(|c| c.as_ref().map_or(false, |c| c.flag.is_some())) {
+                t.insert("crit_dlf_regex_flag".into());
+            }
+            if [&f.ecu, &f.apid, &f.ctid].iter().any(|c| c.as_ref().map_or(false, |c| c.text.len() > 4 && !has_regex_chars(&c.text))) {
+                t.insert("crit_overlong_literal".into());
+            }
+            if f.ctrl || f.lmin.is_some() || f.lmax.is_some() {
+                t.insert("crit_type_or_level".into());
+            }
+            if f.needs_ext() {
+                // a message without extended header that satisfies everything else the filter asks for
+                let mut g = f.clone();
+                g.apid = None;
+                g.ctid = None;
+                g.ctrl = false;
+                g.lmin = None;
+                g.lmax = None;
+                if pb.screen.iter().any(|x| { let m = &scn.msgs[x.1 as usize]; !m.ext && g.verdict(*front, m) }) {
+                    t.insert(format!("noext_decides_{}", pol));
+                    for (k, only) in [(1usize, f.ctid.is_none()), (2, f.apid.is_none())] {
+                        if re[k] && only && !f.ctrl && f.lmin.is_none() && f.lmax.is_none() {
+                            t.insert(format!("noext_decides_regex_{}_only", nm[k]));
+                        }
+                    }
+                    if f.apid.is_none() && f.ctid.is_none() {
+                        t.insert("noext_decides_type_or_level_only".into());
+                    }
+                }
+            }
+        }
+        tags.extend(t);
+        if pb.screen.iter().any(|x| !scn.msgs[x.1 as usize].ext) {
+            tags.push("input_has_msgs_without_ext_header".into());
         }
     }
     if !o.eac.is_empty() {
@@ -1587,27 +1698,137 @@ fn gen_scn(rng: &mut Rng, big: bool) -> Scn {
     Scn { msgs, files: fs }
 }
 
-fn gen_flt(rng: &mut Rng, necu: u64, kind: u8) -> Flt {
-    let mut f = Flt { kind, enabled: true, ecu: vec![], apid: None, ctid: None };
-    match rng.below(6) {
-        0 => f.ecu = vec![rng.range(1, necu) as u8],
-        1 => f.apid = Some(rng.range(1, 3) as u8),
-        2 => f.ctid = Some(rng.range(1, 3) as u8),
+/// the ids of one kind that occur in generated messages
+fn universe(kind: IdKind, necu: u64) -> Vec<String> {
+    match kind {
+        IdKind::Ecu => (1..=necu.max(1) as u8).map(|e| id_str(&ecu_id(e))).collect(),
+        IdKind::Apid => (1..=NIDS as u8).map(|a| id_str(&apid_id(a))).collect(),
+        IdKind::Ctid => (1..=NIDS as u8).map(|c| id_str(&ctid_id(c))).collect(),
+    }
+}
+/// a literal id: mostly one that occurs, sometimes over-long (only the first four bytes count), unknown, or a text that
+/// WOULD be an expression elsewhere (dlt-convert format files and the DLF ECU id are never expressions)
+fn gen_lit(rng: &mut Rng, u: &[String], front: Front) -> String {
+    let id = rng.pick(u).clone();
+    match rng.below(12) {
+        0 if front != Front::Conv && id.len() == 4 => format!("{}{}", id, *rng.pick(&["X", "1", "02"])),
+        1 => (*rng.pick(&["ZZZZ", "EC0", "AP0", "CT", "P01"])).to_string(),
+        2 if front != Front::Eac && id.len() == 4 => format!("{}.", &id[..3]),
+        _ => id,
+    }
+}
+/// an expression over the ids of one kind: "A|B", ".*X", anchored, classes, dots, groups, repetitions
+fn gen_regex(rng: &mut Rng, u: &[String]) -> String {
+    let a = rng.pick(u).clone();
+    let b = rng.pick(u).clone();
+    let last = |s: &str, n: usize| s[s.len() - n.min(s.len())..].to_string();
+    let first = |s: &str, n: usize| s[..n.min(s.len())].to_string();
+    match rng.below(16) {
+        0 | 1 => format!("{}|{}", a, b),
+        2 => format!("{}|{}|ZZ", first(&a, 3), b),
         3 => {
-            f.apid = Some(rng.range(1, 3) as u8);
-            f.ctid = Some(rng.range(1, 3) as u8);
+            let n = rng.range(1, 2) as usize;
+            format!(".*{}", last(&a, n))
         }
         4 => {
-            f.ecu = vec![rng.range(1, necu) as u8];
-            f.apid = Some(rng.range(1, 3) as u8);
+            let n = rng.range(1, 3) as usize;
+            format!("^{}", first(&a, n))
         }
-        _ => {
-            let a = rng.range(1, necu.max(2)) as u8;
-            let b = rng.range(1, necu.max(2)) as u8;
-            f.ecu = if a == b { vec![a] } else { vec![a, b] };
-            if rng.chance(1, 3) {
-                f.ctid = Some(rng.range(1, 3) as u8);
+        5 => {
+            let n = rng.range(1, 2) as usize;
+            format!("{}$", last(&a, n))
+        }
+        6 => format!("^{}$", a), // (an id shorter than four characters is followed by NUL bytes: no match)
+        7 => format!("^{}", a),
+        8 => {
+            let stem = first(&a, a.len() - 1);
+            format!("{}[{}{}]", stem, last(&a, 1), last(&b, 1))
+        }
+        9 => {
+            let stem = first(&a, a.len() - 1);
+            format!("^{}[^{}]", stem, last(&b, 1))
+        }
+        10 => {
+            let k = rng.below(a.len() as u64) as usize;
+            format!("{}.{}", &a[..k], &a[k + 1..])
+        }
+        11 => format!("({}|{}){}", first(&a, 1), first(&b, 2), if rng.chance(1, 2) { "" } else { ".+" }),
+        12 => format!("{}.?{}", first(&a, 1), last(&a, 1)),
+        13 => format!("[{}{}].*[0-2]$", first(&a, 1), first(&b, 1)),
+        14 => format!("{}+{}", first(&a, a.len() - 1), last(&a, 1)),
+        _ => format!("^({}|{})", a, last(&b, 2)),
+    }
+}
+fn gen_crit(rng: &mut Rng, kind: IdKind, necu: u64, front: Front) -> Crit {
+    let u = universe(kind, necu);
+    let can_regex = !(front == Front::Conv || (front == Front::Dlf && kind == IdKind::Ecu));
+    if !can_regex {
+        let mut t = gen_lit(rng, &u, front);
+        if front == Front::Dlf && rng.chance(1, 8) {
+            t = gen_regex(rng, &u); // read literally: its first four bytes
+        }
+        if front == Front::Conv {
+            t.truncate(4);
+        }
+        return Crit { text: t, flag: None };
+    }
+    if front == Front::Dlf && rng.chance(1, 4) {
+        // the DLF flag decides, whatever the text looks like
+        return match rng.below(4) {
+            0 => Crit { text: gen_regex(rng, &u), flag: Some(true) },
+            1 => Crit { text: gen_regex(rng, &u), flag: Some(false) }, // a literal with odd characters
+            2 => {
+                // a plain text as an expression: matches every id that contains it
+                let a = rng.pick(&u).clone();
+                let n = rng.range(1, a.len() as u64) as usize;
+                let k = rng.below((a.len() - n) as u64 + 1) as usize;
+                Crit { text: a[k..k + n].to_string(), flag: Some(true) }
             }
+            _ => Crit { text: gen_lit(rng, &u, front), flag: Some(false) },
+        };
+    }
+    if rng.chance(1, 2) {
+        Crit { text: gen_regex(rng, &u), flag: None }
+    } else {
+        Crit { text: gen_lit(rng, &u, front), flag: None }
+    }
+}
+
+/// one filter with ECU / APID / CTID criteria alone, in pairs or all three (DLF: sometimes message type / log level)
+fn gen_flt(rng: &mut Rng, necu: u64, kind: u8, front: Front) -> Flt {
+    let mut f = Flt::new(kind);
+    let (e, a, c) = match rng.below(10) {
+        0 | 1 => (true, false, false),
+        2 | 3 => (false, true, false),
+        4 | 5 => (false, false, true),
+        6 => (false, true, true),
+        7 => (true, true, false),
+        8 => (true, false, true),
+        _ => (true, true, true),
+    };
+    if e {
+        f.ecu = Some(gen_crit(rng, IdKind::Ecu, necu, front));
+    }
+    if a {
+        f.apid = Some(gen_crit(rng, IdKind::Apid, necu, front));
+    }
+    if c {
+        f.ctid = Some(gen_crit(rng, IdKind::Ctid, necu, front));
+    }
+    if front == Front::Dlf && rng.chance(1, 6) {
+        match rng.below(4) {
+            0 => f.ctrl = true,
+            1 => f.lmin = Some(rng.below(7) as u8),
+            2 => f.lmax = Some(rng.below(7) as u8),
+            _ => {
+                f.lmin = Some(rng.range(1, 4) as u8);
+                f.lmax = Some(rng.range(3, 6) as u8);
+            }
+        }
+        if rng.chance(1, 2) {
+            // type / level criteria alone (or with the ECU only)
+            f.apid = None;
+            f.ctid = None;
         }
     }
     f
@@ -1645,20 +1866,29 @@ fn gen_opts(rng: &mut Rng, scn: &Scn, n: usize, nlc: u32, lcs_ok: bool, depth: u
         0 | 1 => {
             // DLF file: filter SETS with mixed kinds
             o.ffmt = 1;
-            // distinct single-criterion filters so that several negatives (positives) have different literal criteria
+            // distinct single-criterion filters so that several negatives (positives) have different criteria: literal
+            // ones for every id, and expressions over the APIDs / CTIDs
             let mut crit: Vec<Flt> = vec![];
-            for a in 1..=3u8 {
-                crit.push(Flt { kind: 0, enabled: true, ecu: vec![], apid: Some(a), ctid: None });
-                crit.push(Flt { kind: 0, enabled: true, ecu: vec![], apid: None, ctid: Some(a) });
+            for a in 1..=NIDS as u8 {
+                crit.push(Flt::ids(0, None, Some(&id_str(&apid_id(a))), None));
+                crit.push(Flt::ids(0, None, None, Some(&id_str(&ctid_id(a)))));
             }
             for e in 1..=necu as u8 {
-                crit.push(Flt { kind: 0, enabled: true, ecu: vec![e], apid: None, ctid: None });
+                crit.push(Flt::ids(0, Some(&id_str(&ecu_id(e))), None, None));
+            }
+            for _ in 0..4 {
+                let mut f = Flt::new(0);
+                if rng.chance(1, 2) {
+                    f.apid = Some(Crit { text: gen_regex(rng, &universe(IdKind::Apid, necu)), flag: None });
+                } else {
+                    f.ctid = Some(Crit { text: gen_regex(rng, &universe(IdKind::Ctid, necu)), flag: None });
+                }
+                crit.push(f);
             }
             shuffle(rng, &mut crit);
             let mut take = |rng: &mut Rng, kind: u8, crit: &mut Vec<Flt>| -> Flt {
-                let mut f = if rng.chance(2, 3) && !crit.is_empty() { crit.pop().unwrap() } else { gen_flt(rng, necu, kind) };
+                let mut f = if rng.chance(1, 2) && !crit.is_empty() { crit.pop().unwrap() } else { gen_flt(rng, necu, kind, Front::Dlf) };
                 f.kind = kind;
-                f.ecu.truncate(1); // DLF: a literal ECU id only
                 f
             };
             match rng.below(5) {
@@ -1705,7 +1935,11 @@ fn gen_opts(rng: &mut Rng, scn: &Scn, n: usize, nlc: u32, lcs_ok: bool, depth: u
             o.ffmt = 2;
             let k = rng.range(0, 3);
             for _ in 0..k {
-                o.ffilters.push(Flt { kind: 0, enabled: true, ecu: vec![], apid: Some(rng.below(4) as u8), ctid: Some(rng.below(4) as u8) });
+                // "APID CTID " records; an id may be shorter than four characters or missing ("----" = four NUL bytes)
+                let mut f = Flt::new(0);
+                f.apid = if rng.chance(1, 5) { Some(Crit::lit("")) } else { Some(gen_crit(rng, IdKind::Apid, necu, Front::Conv)) };
+                f.ctid = if rng.chance(1, 5) { Some(Crit::lit("")) } else { Some(gen_crit(rng, IdKind::Ctid, necu, Front::Conv)) };
+                o.ffilters.push(f);
             }
         }
         _ => {}
@@ -1713,7 +1947,7 @@ fn gen_opts(rng: &mut Rng, scn: &Scn, n: usize, nlc: u32, lcs_ok: bool, depth: u
     if rng.chance(if o.ffmt != 0 { 3 } else { 2 }, 5) {
         let k = rng.range(1, 3);
         for _ in 0..k {
-            o.eac.push(gen_flt(rng, necu, 0));
+            o.eac.push(gen_flt(rng, necu, 0, Front::Eac));
         }
         o.eac_style = rng.below(3) as u8;
     } else {
@@ -1956,7 +2190,13 @@ fn corpus_filters() -> (Scn, Vec<Opts>) {
     }
     let f = |v: Vec<u32>| FileSpec { garbage: vec![vec![]; v.len() + 1], msgs: v, missing: false, pad: 0 };
     let scn = Scn { files: vec![f((0..12).filter(|k| k % 2 == 0).collect()), f((0..12).filter(|k| k % 2 == 1).collect())], msgs };
-    let fl = |kind: u8, enabled: bool, ecu: Vec<u8>, apid: Option<u8>, ctid: Option<u8>| Flt { kind, enabled, ecu, apid, ctid };
+    let fl = |kind: u8, enabled: bool, ecu: Vec<u8>, apid: Option<u8>, ctid: Option<u8>| {
+        let ecu: Vec<String> = ecu.iter().map(|e| id_str(&ecu_id(*e))).collect();
+        let joined = ecu.join("|");
+        let mut f = Flt::ids(kind, if ecu.is_empty() { None } else { Some(&joined) }, apid.map(|a| id_str(&apid_id(a))).as_deref(), ctid.map(|c| id_str(&ctid_id(c))).as_deref());
+        f.enabled = enabled;
+        f
+    };
     let dlf = |fs: Vec<Flt>, style: u8, ofile: bool| {
         let mut o = Opts::none(style);
         o.ffmt = 1;
@@ -2008,7 +2248,7 @@ fn corpus_out_path() -> (Scn, Vec<Opts>) {
     };
     let apid = |a: u8, pre: Pre| {
         let mut o = Opts::none(3);
-        o.eac = vec![Flt { kind: 0, enabled: true, ecu: vec![], apid: Some(a), ctid: None }];
+        o.eac = vec![Flt::ids(0, None, Some(&id_str(&apid_id(a))), None)];
         o.ofile = true;
         o.pre = pre;
         o
@@ -2034,6 +2274,251 @@ fn corpus_out_path() -> (Scn, Vec<Opts>) {
         },
     ];
     (scn, opts)
+}
+
+/// id criteria that are expressions, on an input where every third message has no extended header: `--eac` and DLF
+/// forms of ECU / APID / CTID alone and in pairs ("A|B", ".*X", anchored, classes), positive and negative, the DLF flags,
+/// message type / log level criteria, over-long and short literals, dlt-convert format records
+fn corpus_id_expressions() -> (Scn, Vec<Opts>) {
+    let mut msgs = vec![];
+    for k in 0..18u32 {
+        let ext = k % 3 != 2;
+        msgs.push(M {
+            ecu: (k % 2) as u8 + 1,
+            rt: RHO + k as u64 * 70_000,
+            ts: (k / 2) * 1_400,
+            mcnt: k as u8,
+            ext,
+            apid: if ext { (k % 4) as u8 + 1 } else { 0 },
+            ctid: if ext { ((k / 2) % 4) as u8 + 1 } else { 0 },
+            boot: 0,
+            fill: 0,
+            creq: k == 7,
+            has_ts: true,
+            lvl: (k % 6) as u8 + 1,
+        });
+    }
+    let f = |v: Vec<u32>| FileSpec { garbage: vec![vec![]; v.len() + 1], msgs: v, missing: false, pad: 0 };
+    let scn = Scn { files: vec![f((0..18).filter(|k| k % 2 == 0).collect()), f((0..18).filter(|k| k % 2 == 1).collect())], msgs };
+    let re = |t: &str, flag: Option<bool>| Some(Crit { text: t.to_string(), flag });
+    let mk = |kind: u8, ecu: Option<Crit>, apid: Option<Crit>, ctid: Option<Crit>| {
+        let mut f = Flt::new(kind);
+        f.ecu = ecu;
+        f.apid = apid;
+        f.ctid = ctid;
+        f
+    };
+    let mut opts = vec![];
+    let eacs: Vec<Vec<Flt>> = vec![
+        vec![mk(0, None, None, re("CT01|CT02", None))],
+        vec![mk(0, re("EC02|EC01", None), None, re("^CT", None))],
+        vec![mk(0, None, re("AP0[12]", None), None)],
+        vec![mk(0, None, re(".*02", None), None)],
+        vec![mk(0, re("^EC0[13]$", None), None, None)],
+        vec![mk(0, re("EC01", None), re("A.*", None), None)],
+        vec![mk(0, None, re("^A", None), re("02$", None))],
+        vec![mk(0, re("EC0.", None), None, re("C3", None))],
+        vec![mk(0, None, None, re("DT02", None)), mk(0, None, re("BP02", None), None), mk(0, re("EC02", None), None, re("CT0[^1]", None))],
+        vec![mk(0, None, None, re("^C3$", None))],
+        vec![mk(0, None, re("AP011", None), None)],
+        vec![mk(0, None, None, re(".*", None))],
+    ];
+    for (i, e) in eacs.into_iter().enumerate() {
+        let mut o = Opts::none(if i % 4 == 3 { 0 } else { 3 });
+        o.eac = e;
+        o.eac_style = (i % 3) as u8;
+        o.ofile = i % 2 == 0 || o.style == 0;
+        opts.push(o);
+    }
+    let lv = |kind: u8, ctrl: bool, lmin: Option<u8>, lmax: Option<u8>| {
+        let mut f = Flt::new(kind);
+        f.ctrl = ctrl;
+        f.lmin = lmin;
+        f.lmax = lmax;
+        f
+    };
+    let dlfs: Vec<Vec<Flt>> = vec![
+        vec![mk(0, None, None, re("CT0[12]", None))],
+        vec![mk(1, None, None, re("C3|DT02", None))],
+        vec![mk(1, None, re("P0", Some(true)), None)],
+        vec![mk(0, None, re("AP0.", Some(false)), None)],
+        vec![lv(0, false, Some(3), Some(5))],
+        vec![lv(1, true, None, None)],
+        vec![mk(0, re("EC01", None), None, re(".*2", None)), mk(1, None, re("^B", None), None)],
+        vec![mk(0, None, None, re("^CT", Some(true))), mk(0, re("EC02", None), None, None)],
+        vec![mk(1, None, None, re("CT01", Some(true))), mk(1, None, re("A3|AP01", None), None), lv(1, false, Some(6), None)],
+        vec![mk(0, re("EC01|EC02", None), None, None)], // DLF ECU ids are literal: the first four bytes
+    ];
+    for (i, d) in dlfs.into_iter().enumerate() {
+        let mut o = Opts::none(if i % 4 == 1 { 1 } else { 3 });
+        o.ffmt = 1;
+        o.ffilters = d;
+        o.eac_style = (i % 2) as u8;
+        o.ofile = i % 2 == 1;
+        if i == 6 {
+            o.eac = vec![mk(0, None, None, re("C3|CT01", None))];
+        }
+        opts.push(o);
+    }
+    let mut o = Opts::none(3);
+    o.ffmt = 2;
+    o.ffilters = vec![mk(0, None, re("AP01", None), re("CT01", None)), mk(0, None, re("A3", None), re("", None)), mk(0, None, re("AP0.", None), re("CT02", None)), mk(0, None, re("AP02", None), re("C3", None))];
+    opts.push(o.clone());
+    o.eac = vec![mk(0, None, None, re("CT0[34]|C3", None))];
+    o.ofile = true;
+    opts.push(o);
+    (scn, opts)
+}
+
+/// family for `--sort`: traces in which an ECU is suspended and resumed (its timestamps go on, the reception times jump
+/// by 15-40 s: the detector opens a "resume" lifecycle) and a later message with a smaller buffering delay moves the
+/// start estimate of the resumed lifecycle BEFORE the start of the lifecycle it resumes; a second ECU runs in parallel.
+/// There is no clean-boot ground truth for such traces (boot = u32::MAX): lifecycle ids come from the detector model.
+fn gen_resume(rng: &mut Rng) -> Scn {
+    let mut msgs: Vec<M> = vec![];
+    let step = *rng.pick(&[100_000u64, 500_000, 1_000_000]);
+    let mut push = |rng: &mut Rng, msgs: &mut Vec<M>, ecu: u8, rt: u64, ts_us: u64| {
+        let ext = rng.chance(2, 3);
+        msgs.push(M {
+            ecu,
+            rt,
+            ts: (ts_us / 100) as u32,
+            mcnt: (msgs.len() % 256) as u8,
+            ext,
+            apid: if ext { rng.range(1, NIDS) as u8 } else { 0 },
+            ctid: if ext { rng.range(1, NIDS) as u8 } else { 0 },
+            boot: u32::MAX,
+            fill: 0,
+            creq: false,
+            has_ts: true,
+            lvl: rng.range(1, 6) as u8,
+        });
+    };
+    // ECU 1: first part of the lifecycle, start estimate T
+    let t = RHO + rng.below(5) * step;
+    let n1 = rng.range(3, 7);
+    let mut ts = 0u64;
+    for _ in 0..n1 {
+        let jit = rng.below(3) * 1_000;
+        push(rng, &mut msgs, 1, t + ts + jit, ts);
+        ts += rng.range(1, 3) * step;
+    }
+    // suspended: reception times jump, timestamps go on
+    let gap = rng.range(15, 40) * 1_000_000;
+    let n2 = rng.range(2, 6);
+    for _ in 0..n2 {
+        let jit = rng.below(3) * 1_000;
+        push(rng, &mut msgs, 1, t + gap + ts + jit, ts);
+        ts += rng.range(1, 3) * step;
+    }
+    // messages with a much larger timestamp and a smaller delay: start estimate = rt - ts moves before T
+    if rng.chance(4, 5) {
+        let back = rng.range(1, 20) * 1_000_000 + rng.below(1_000_000);
+        let last_rt = t + gap + ts;
+        let n3 = rng.range(1, 4);
+        for k in 0..n3 {
+            let rt = last_rt + k * step;
+            push(rng, &mut msgs, 1, rt, rt - t + back); // rt - timestamp = T - back
+        }
+    }
+    // ECU 2 in parallel, sometimes rebooting in between
+    let t2 = t + rng.below(10) * step;
+    let total = msgs.last().unwrap().rt - t;
+    let n = rng.range(3, 9);
+    let mut boot_at = t2;
+    for k in 0..n {
+        let rt = t2 + total * k / n + rng.below(1_000);
+        if rng.chance(1, 6) {
+            boot_at = rt;
+        }
+        push(rng, &mut msgs, 2, rt, rt - boot_at);
+    }
+    // file order = reception order per ECU; one file per ECU or one for both
+    let mut order: Vec<u32> = (0..msgs.len() as u32).collect();
+    order.sort_by_key(|u| (msgs[*u as usize].rt, *u));
+    let mut used: BTreeSet<(u8, u32, u8)> = BTreeSet::new();
+    for m in msgs.iter_mut() {
+        while used.contains(&(m.ecu, m.ts, m.mcnt)) {
+            m.mcnt = m.mcnt.wrapping_add(1);
+        }
+        used.insert((m.ecu, m.ts, m.mcnt));
+    }
+    let f = |v: Vec<u32>| FileSpec { garbage: vec![vec![]; v.len() + 1], msgs: v, missing: false, pad: 0 };
+    let files = if rng.chance(1, 2) {
+        vec![f(order)]
+    } else {
+        vec![f(order.iter().cloned().filter(|u| msgs[*u as usize].ecu == 1).collect()), f(order.iter().cloned().filter(|u| msgs[*u as usize].ecu == 2).collect())]
+    };
+    Scn { msgs, files }
+}
+
+/// family aimed at the per-stream sort + de-duplication: a stream (one ECU set) of 2-3 DIFFERENT files whose first
+/// messages have exactly the same reception time (a logger with coarse time stamps rotating its file, two channels
+/// started by the same trigger), optionally one more stream; argument lists also name a file twice (that copy, and only
+/// that, must be dropped).  First reception times tie, so nothing is said about the order of the arguments; every file
+/// must still come out completely, in its order.
+fn gen_tied(rng: &mut Rng) -> (Scn, Vec<Vec<ArgSpec>>) {
+    let nset = rng.range(1, 2) as u8; // ECUs of the tied stream
+    let grid = *rng.pick(&[1_000u64, 100_000, 1_000_000]);
+    let nf = rng.range(2, 3) as usize;
+    let t0 = RHO + rng.below(4) * grid;
+    let mut msgs: Vec<M> = vec![];
+    let mut files: Vec<Vec<u32>> = vec![];
+    let mk = |rng: &mut Rng, msgs: &mut Vec<M>, ecu: u8, rt: u64, boot_t: u64| -> u32 {
+        let ext = rng.chance(3, 4);
+        msgs.push(M {
+            ecu,
+            rt,
+            ts: ((rt - boot_t) / 100) as u32,
+            mcnt: (msgs.len() % 256) as u8,
+            ext,
+            apid: if ext { rng.range(1, NIDS) as u8 } else { 0 },
+            ctid: if ext { rng.range(1, NIDS) as u8 } else { 0 },
+            boot: 0,
+            fill: 0,
+            creq: false,
+            has_ts: true,
+            lvl: rng.range(1, 6) as u8,
+        });
+        msgs.len() as u32 - 1
+    };
+    for _ in 0..nf {
+        let mut f = vec![];
+        // every ECU of the set at the shared first time (so that all files have the same ECU set), then some more
+        let mut rt = t0;
+        for e in 1..=nset {
+            f.push(mk(rng, &mut msgs, e, rt, t0));
+        }
+        for _ in 0..rng.range(0, 4) {
+            rt += rng.below(3) * grid;
+            let e = rng.range(1, nset as u64) as u8;
+            f.push(mk(rng, &mut msgs, e, rt, t0));
+        }
+        files.push(f);
+    }
+    if rng.chance(1, 2) {
+        // another stream
+        let e = nset + 1;
+        let t1 = t0 + rng.below(3) * grid + 17;
+        let mut f = vec![];
+        let mut rt = t1;
+        for _ in 0..rng.range(1, 4) {
+            f.push(mk(rng, &mut msgs, e, rt, t1));
+            rt += rng.range(1, 2) * grid;
+        }
+        files.push(f);
+    }
+    let fs: Vec<FileSpec> = files.into_iter().map(|m| FileSpec { garbage: vec![vec![]; m.len() + 1], msgs: m, missing: false, pad: 0 }).collect();
+    let scn = Scn { msgs, files: fs };
+    let base: Vec<ArgSpec> = (0..scn.files.len()).map(|k| (k, false)).collect();
+    let mut rev = base.clone();
+    rev.reverse();
+    let mut twice = base.clone();
+    shuffle(rng, &mut twice);
+    let k = rng.below(nf as u64) as usize;
+    let at = rng.below(twice.len() as u64 + 1) as usize;
+    twice.insert(at, (k, rng.chance(1, 2)));
+    (scn, vec![base, rev, twice])
 }
 
 fn perms4() -> Vec<Vec<usize>> {
@@ -2104,7 +2589,7 @@ fn main() {
             let mut o = Opts::none(if i % 2 == 0 { 3 } else { 0 });
             o.ofile = i % 3 != 0;
             if i == 6 {
-                o.eac = vec![Flt { kind: 0, enabled: true, ecu: vec![2, 3], apid: Some(1), ctid: None }];
+                o.eac = vec![Flt::ids(0, Some("EC02|EC03"), Some("AP01"), None)];
                 o.b = Some(1);
             }
             plans.push(Plan { scn: no, args: l.iter().map(|k| (*k, false)).collect(), opts: o, tags: vec!["corpus_odd_files"] });
@@ -2132,6 +2617,16 @@ fn main() {
         for (i, o) in opts.into_iter().enumerate() {
             let args: Vec<ArgSpec> = if i % 2 == 0 { vec![(0, false), (1, false)] } else { vec![(1, false), (0, false)] };
             plans.push(Plan { scn: no, args, opts: o, tags: vec!["corpus_filters"] });
+        }
+    }
+    {
+        let (scn, opts) = corpus_id_expressions();
+        let no = w.scns.len();
+        scn.write_files(&w.root.join(format!("s{}", no)));
+        w.scns.push(scn);
+        for (i, o) in opts.into_iter().enumerate() {
+            let args: Vec<ArgSpec> = if i % 3 != 2 { vec![(0, false), (1, false)] } else { vec![(1, false), (0, false)] };
+            plans.push(Plan { scn: no, args, opts: o, tags: vec!["corpus_id_expressions"] });
         }
     }
     {
@@ -2218,6 +2713,78 @@ fn main() {
         w.scns.push(scn);
         for (i, l) in lists.into_iter().enumerate() {
             plans.push(Plan { scn: no, args: l, opts: Opts::none(if i % 2 == 0 { 3 } else { 1 }), tags: vec!["multi_stream_orders"] });
+        }
+    }
+    // ---- family aimed at the per-stream sort + dedup: different files of one stream with the same first reception time
+    let ntied = match a.tier.as_str() {
+        "quick" => 6,
+        "thorough" => 40,
+        _ => 120,
+    };
+    let mut rng4 = Rng::new(a.seed ^ 0x71ed_c14);
+    for _ in 0..ntied {
+        let (scn, lists) = gen_tied(&mut rng4);
+        let no = w.scns.len();
+        scn.write_files(&w.root.join(format!("s{}", no)));
+        let n = scn.msgs.len();
+        let mut os: Vec<Vec<Opts>> = vec![];
+        for i in 0..lists.len() {
+            let mut v = vec![Opts::none(if i % 2 == 0 { 3 } else { 1 })];
+            if i == 0 {
+                let mut o = Opts::none(0);
+                o.ofile = true;
+                v.push(o);
+            }
+            v.push(gen_opts(&mut rng4, &scn, n, 2, false, 0));
+            os.push(v);
+        }
+        w.scns.push(scn);
+        for (l, v) in lists.into_iter().zip(os) {
+            for o in v {
+                plans.push(Plan { scn: no, args: l.clone(), opts: o, tags: vec!["tied_first_times"] });
+            }
+        }
+    }
+    // ---- family for --sort: suspended and resumed lifecycles whose start estimate moves before the origin's
+    let nresume = match a.tier.as_str() {
+        "quick" => 6,
+        "thorough" => 40,
+        _ => 120,
+    };
+    let mut rng3 = Rng::new(a.seed ^ 0x7e5_c14);
+    for _ in 0..nresume {
+        let scn = gen_resume(&mut rng3);
+        let no = w.scns.len();
+        scn.write_files(&w.root.join(format!("s{}", no)));
+        let n = scn.msgs.len();
+        let mut args: Vec<ArgSpec> = (0..scn.files.len()).map(|k| (k, false)).collect();
+        if rng3.chance(1, 2) {
+            args.reverse();
+        }
+        let mut sorted = Opts::none(3);
+        sorted.sort = true;
+        let mut listing = Opts::none(0);
+        listing.sort = true;
+        listing.ofile = true;
+        // windows on the ORIGINAL index under --sort (the sort moves the resumed lifecycle's messages across others)
+        let mut w1 = Opts::none(3);
+        w1.sort = true;
+        w1.e = Some((n / 2) as u32 + rng3.below(3) as u32);
+        w1.ofile = rng3.chance(1, 2);
+        let mut w2 = Opts::none(if rng3.chance(1, 2) { 1 } else { 0 });
+        w2.sort = true;
+        w2.b = Some((n / 3) as u32);
+        w2.e = Some((2 * n / 3) as u32 + rng3.below(2) as u32);
+        w2.ofile = true;
+        let mut os = vec![sorted, listing, w1, w2];
+        for _ in 0..2 {
+            let mut o = gen_opts(&mut rng3, &scn, n, 3, true, 0);
+            o.sort = true;
+            os.push(o);
+        }
+        w.scns.push(scn);
+        for o in os {
+            plans.push(Plan { scn: no, args: args.clone(), opts: o, tags: vec!["resume_sort"] });
         }
     }
     let mut jobs = vec![];
